@@ -29,13 +29,21 @@ type verifStreamScn struct {
 	At      string `json:"at"`
 	Gap     int    `json:"gap"`
 	Reps    int    `json:"reps"`
+	RT      int    `json:"rt"` // read_timeout of this scenario's stack in ms (0: the default)
+}
+
+func (sc verifStreamScn) rt() int {
+	if sc.RT > 0 {
+		return sc.RT
+	}
+	return verifStreamRT
 }
 
 const verifStreamRT = 1000 // read_timeout in ms for these stacks
 
 func verifStreamBoot(sc verifStreamScn) (*verifStack, error) {
 	return verifBoot(sc.Engine, "priority", sc.Profile, []verifEndpointOpt{{Models: []string{"m1"}}}, func(c *config.Config) {
-		c.Proxy.ReadTimeout = verifStreamRT * time.Millisecond
+		c.Proxy.ReadTimeout = time.Duration(sc.rt()) * time.Millisecond
 		c.Proxy.ResponseTimeout = 30 * time.Second
 	})
 }
@@ -73,7 +81,7 @@ func TestVerif_Stream(t *testing.T) {
 		defer stk.Close()
 		be := stk.backends[0]
 		b.Emit("Reset", "scn", sn, "booted", true, "kind", sc.Kind, "engine", sc.Engine, "profile", sc.Profile, "ct", sc.CT)
-		base := []any{"engine", sc.Engine, "profile", sc.Profile, "ct", sc.CT, "rt", verifStreamRT}
+		base := []any{"engine", sc.Engine, "profile", sc.Profile, "ct", sc.CT, "rt", sc.rt()}
 		id := fmt.Sprintf("st%d", sn)
 		switch sc.Kind {
 		case "flow":
@@ -165,6 +173,19 @@ func TestVerif_Stream(t *testing.T) {
 			b.Emit("Abort", kv...)
 		case "pause":
 			be.OnAttempt = func(r *zzverif.Recv) zzverif.Plan {
+				if sc.RT > 0 {
+					// a burst of chunks 100 ms apart (together shorter than a quarter of the read timeout), then ONE
+					// pause just below the timeout, then the rest: whatever clock the engine keeps for the stall must
+					// have been restarted by the last chunk of the burst
+					return zzverif.Plan{Kind: "ok", Status: 200, Chunked: true, CT: sc.CT, N: 3, Gate: func(i int) {
+						if i == 1 {
+							time.Sleep(400 * time.Millisecond)
+						}
+						if i == 2 {
+							time.Sleep(time.Duration(sc.Gap) * time.Millisecond)
+						}
+					}}
+				}
 				return zzverif.Plan{Kind: "ok", Status: 200, Chunked: true, CT: sc.CT, N: 3, GapMs: sc.Gap}
 			}
 			res := zzverif.Do(stk.addr, verifStreamReq(id))
